@@ -71,7 +71,7 @@ func (op Cilc) Op_instruction_verilog_state_machine(conf *Config, arch *Arch, rg
 	}
 	for i := 0; i < reg_num; i++ {
 		result += "						" + strings.ToUpper(Get_register_name(i)) + " : begin\n"
-		result += "							{carryflag,_" + strings.ToLower(Get_register_name(i)) + "} <= #1 {0,_" + strings.ToLower(Get_register_name(i)) + "} << 1'b1;\n"
+		result += "							{carryflag,_" + strings.ToLower(Get_register_name(i)) + "} <= #1 {1'b0,_" + strings.ToLower(Get_register_name(i)) + "} << 1'b1;\n"
 		result += "							$display(\"Cilc " + strings.ToUpper(Get_register_name(i)) + "\");\n"
 		result += "						end\n"
 	}
